@@ -181,6 +181,11 @@ type Env struct {
 	stub      map[string]bool
 	MaxPhases int
 	quietLog  bool
+	// RulePrefix, when set, makes Violate ignore rules of other properties (monitor runs riding on another property's workload).
+	RulePrefix string
+	// PoolCapacity > 0 makes every endpoint of the run use a message pool of that capacity (C12).
+	PoolCapacity uint32
+	phaseCh      chan struct{}
 }
 
 var progress atomic.Uint64 // bumped at every phase; read by the real-time watchdog
@@ -233,8 +238,28 @@ func (e *Env) Wait() {
 	e.flushNotes()
 	e.mu.Lock()
 	e.phase++
+	ch := e.phaseCh
+	e.phaseCh = nil
 	e.mu.Unlock()
+	if ch != nil {
+		close(ch) // goroutines that hold something "until the next phase" go on now
+	}
 	progress.Add(1)
+}
+
+// NextPhase returns a channel that is closed at the next phase boundary.
+func (e *Env) NextPhase() <-chan struct{} {
+	e.mu.Lock()
+	defer e.mu.Unlock()
+	if e.tearing {
+		c := make(chan struct{})
+		close(c)
+		return c
+	}
+	if e.phaseCh == nil {
+		e.phaseCh = make(chan struct{})
+	}
+	return e.phaseCh
 }
 
 // Phase returns the current phase number.
@@ -275,6 +300,9 @@ func (e *Env) Stub(c ...string) {
 
 // Violate records a violation of rule with a discriminating signature.
 func (e *Env) Violate(rule, sig, format string, a ...any) {
+	if e.RulePrefix != "" && !strings.HasPrefix(rule, e.RulePrefix) {
+		return
+	}
 	e.mu.Lock()
 	defer e.mu.Unlock()
 	if len(e.viol) >= 8 {
@@ -525,6 +553,10 @@ func Execute(t *testing.T, p *PropDef, tape *Tape, keepLog bool) (res *RunResult
 func (e *Env) teardown() {
 	e.mu.Lock()
 	e.tearing = true
+	if e.phaseCh != nil {
+		close(e.phaseCh)
+		e.phaseCh = nil
+	}
 	parked := e.parked
 	e.parked = nil
 	cl := e.cleanup
